@@ -39,6 +39,7 @@ EVENTS = {
     'sq': ('buf', b"s = 'abc"), 'sqf': ('file', b'sq.conf'),
     'cm': ('buf', b'/* abc'), 'cmf': ('file', b'cm.conf'),
     'esc': ('buf', b's = "\\9"'), 'range': ('buf', b'i = 99999999999999999999'), 'frange': ('buf', b'f = 1e99999'),
+    'dql': ('buf', b'l = {"abc'), 'cml': ('buf', b'l = /* abc'),      # aborted between the '=' of a LIST option and its first value
     'depdq': ('buf', b'old = 1 s = "abc'),      # mentions a deprecated option (stores the value it has anyway), then aborts inside a string
     'inc1': ('buf', b'include("bad1.conf")'), 'inc1f': ('file', b'incbad1.conf'),
     'inc2': ('buf', b'include("inc2.conf")'), 'incdq': ('buf', b'include("dqinc.conf")'),
@@ -49,7 +50,7 @@ EVENTS = {
     'reinit': ('reinit', None), 'switch': ('switch', None),
 }
 KEEP = ('ok', 'okf', 'okfp', 'oksecf', 'reinit', 'switch')     # events with a lasting, specified effect on the stores
-ORDER = ['ok', 'okf', 'syn', 'synf', 'dq', 'dqf', 'dq0', 'sq', 'sqf', 'cm', 'cmf', 'esc', 'range', 'frange', 'depdq', 'inc1', 'inc1f', 'inc2', 'incdq',
+ORDER = ['ok', 'okf', 'syn', 'synf', 'dq', 'dqf', 'dq0', 'sq', 'sqf', 'cm', 'cmf', 'esc', 'range', 'frange', 'dql', 'cml', 'depdq', 'inc1', 'inc1f', 'inc2', 'incdq',
          'incself', 'incmiss', 'incdir', 'oksecf', 'incsecbad', 'okfp', 'synfp', 'fperr', 'reinit', 'switch']
 
 PROBES = {
@@ -121,8 +122,8 @@ def live_probe_case(hist):
     lines, cur = history_lines(hist)
     other = 'B' if cur == 'A' else 'A'
     return Case(fixture_lines() + lines + ['note probe', 'parse_fp %s %s' % (cur, enc(PROBES['P6-error-in-a-stream'])),     # a stream right after whatever the history ended with
+                                           'parse_buf %s %s' % (cur, enc(PROBES['P1-plain'])), 'dump %s 0' % cur, 'dump %s 0' % other,       # appends to the list before anything assigns it
                                            'parse_buf %s %s' % (cur, enc(PROBES['P7-float-first'])), 'dump %s 0' % cur,
-                                           'parse_buf %s %s' % (cur, enc(PROBES['P1-plain'])), 'dump %s 0' % cur, 'dump %s 0' % other,
                                            'parse_buf %s %s' % (cur, enc(b'old = 1 i = 8')), 'parse_buf %s %s' % (other, enc(b'old = 1')), 'dump %s 0' % cur,   # the notice about a deprecated option: every time
                                            'parse_buf %s %s' % (other, enc(PROBES['P4-error-with-diagnostics'])), 'dump %s 0' % other,
                                            'parse_buf %s %s' % (cur, enc(PROBES['P3-include-full-depth'])), 'dump %s 0' % cur,
